@@ -394,6 +394,8 @@ func runCase() {
 		caseLimits(res, idx, dir, seed, tier)
 	case "memdb":
 		caseMemdb(res, idx, dir, seed, tier)
+	case "schemacache":
+		caseSchemaCache(res, idx, dir, seed, tier)
 	}
 	seam.Restore()
 	data, _ := json.Marshal(res)
